@@ -243,7 +243,9 @@ let parse_obs (iline : string) (jline : string) (prev : string option) =
     let ts = List.map (fun x -> nn (List.hd (String.split_on_char '.' x))) (lst f.(2)) in
     let hs = List.map (fun x -> match String.split_on_char '.' x with [i; a; d] -> ((nn i, nn a), nn d) | _ -> failwith "H entry") (lst f.(3)) in
     let ks = List.map nn (lst f.(4)) in
-    let key = f.(2) ^ ";" ^ f.(3) ^ ";" ^ f.(5) in
+    (* "nothing changed" also covers the RTT estimator state and the instant of the last request (fact rtt=...) *)
+    let rttf = List.fold_left (fun acc t -> if String.length t > 4 && String.sub t 0 4 = "rtt=" then t else acc) "rtt=?" (split_sp jline) in
+    let key = f.(2) ^ ";" ^ f.(3) ^ ";" ^ f.(5) ^ ";" ^ rttf in
     let same = match prev with Some p -> p = key | None -> false in
     Some ({ ob_ret = ret; ob_events = evs; ob_T = ts; ob_H = hs; ob_K = ks; ob_same = same }, key)
   end
@@ -272,7 +274,8 @@ let agent_suite () =
           mcf := Some ({ mc_reliable = rel = "1"; mc_rm = nn rm; mc_rc = nn rc; mc_limit = nn limit }, cc);
           ms := Some (mall0 cc);
           (* the snapshot of a fresh client *)
-          prev := Some ("T=-;H=-;" ^ (match mech with "0" -> "M=none" | "1" -> "M=st:0" | "2" -> "M=st:1" | "3" -> "M=st:2" | _ -> "M=lt:0:-"))
+          prev := Some ("T=-;H=-;" ^ (match mech with "0" -> "M=none" | "1" -> "M=st:0" | "2" -> "M=st:1" | "3" -> "M=st:2" | _ -> "M=lt:0:-")
+                        ^ ";" ^ (if rel = "1" then "rtt=-" else "rtt=" ^ rto ^ ".0.0.-"))
         | _ -> failwith ("bad H: " ^ line)
       end else if n > 2 && line.[0] = 'O' then begin
         let f = Array.of_list (split_sp line) in
@@ -302,6 +305,8 @@ let agent_suite () =
            | Some (o, key) ->
              let (s', vs) = monitor_step c cc st mo o in
              ms := Some s'; prev := Some key;
+             if List.mem "pwleak=1" (split_sp (if n > 2 then String.sub line 2 (n - 2) else "")) then
+               emit (Printf.sprintf "S %d %d C08 password-on-wire" i (if mon_C08_secret true then 1 else 0));
              List.iter (fun ((k, v), cls) ->
                  let tag = match int_of_n k, int_of_n cls with
                    | 8, 1 -> "lt-retry401-no-integrity" | 8, 2 -> "lt-retry438-no-algorithms" | _ -> "-" in
